@@ -249,7 +249,7 @@ func init() {
 	})
 	register(&Prop{
 		ID: "C12",
-		Rule: "formula trees as for C11 but with Unique groups only in positive positions; bf.Dimacs output is parsed (header counts, literal ranges, name comments) and compared with the formula over the whole truth table by the verified GS.exportEquiv: every formula model extends to a model of the export and every model of the export restricts to formula models, eliminated names being unconstrained. Exports with more than 14 variables are only checked for well-formedness. Non-trivial = export with at least 2 clauses; distinct = distinct tree.",
+		Rule: "formula trees as for C11 but with Unique groups only in positive positions; bf.Dimacs output is parsed (header counts, literal ranges, name comments) and compared with the formula over the whole truth table by the verified GS.exportEquiv: every formula model extends to a model of the export and every model of the export restricts to formula models, eliminated names being unconstrained. Exports with 15-48 variables over at most 9 names are judged by verified solving instead: for every assignment of the names, 'the formula holds' must equal 'the assignment extends to a model of the export', the extension question being answered by the Go solver and verified in Lean (Sat: the model is evaluated; Unsat: the RUP certificate is checked). Larger exports are only checked for well-formedness and byte equality with the Lean mirror. Non-trivial = export with at least 2 clauses; distinct = distinct tree.",
 		Gens: []Gen{
 			{Name: "tree", Weight: 30, Make: func(r *Rng, tier string) interface{} { return genBfCase(r, tier, true) }},
 			{Name: "two-unique-groups", Weight: 1, Make: func(r *Rng, tier string) interface{} { return genTwoUnique(r, tier) }},
